@@ -9,7 +9,6 @@ import (
 	"time"
 
 	"github.com/New-JAMneration/JAM-Protocol/internal/types"
-	"github.com/New-JAMneration/JAM-Protocol/internal/utilities/hash"
 	"github.com/New-JAMneration/JAM-Protocol/internal/zzverif/refpvm"
 	"github.com/New-JAMneration/JAM-Protocol/internal/zzverif/vh"
 )
